@@ -11,7 +11,8 @@ Open Scope N_scope.
 
 Inductive ev :=
 | EOp (o : mop) (ob : obs)
-| EPoll (i : index) (max : N) (res : option (list N * list N * index)).
+| EPoll (i : index) (max : N) (res : option (list N * list N * index))
+| EPool (accepted : bool) (notified : bool).   (* a pool submission: were OnReorg listeners called? *)
 
 Record case := mk_case { c_univ : list (N * blk); c_evs : list ev }.
 
@@ -32,6 +33,8 @@ Fixpoint check_evs (U : universe) (m : mgr) (es : list ev) : bool :=
       check_obs m' out nt o && check_evs U m' rest
   | EPoll i max res :: rest =>
       check_poll U m i max res && check_evs U m rest
+  | EPool acc nt :: rest =>
+      Bool.eqb nt (hnotifies U m (HPool acc)) && check_evs U m rest
   end.
 
 Definition check_case (c : case) : bool :=
